@@ -461,6 +461,9 @@ def run(plan, ch, want_log=False):
         own = "/verif/" in where or "harness" in where
         viol.append(("HARNESS" if own else "C03", "bookkeeping_exception", (repr(e)[:160], where[:160]),
                      dict(inverted=bool(b.inverted_tasks), swapped=b.swapped, exc=type(e).__name__)))
+        never = sorted(set(job.tasks) - set(b.dispatched))
+        if not own and never:
+            viol.append(("C02", "run_aborted_with_tasks_never_dispatched", (never[:6], repr(e)[:120]), dict(exc=type(e).__name__)))
         if not own and job.ext_outputs:
             # whatever the reason, the caller did not get the datasets it asked for
             viol.append(("C01", "run_raised_requested_outputs_not_delivered", (repr(e)[:160], where[:160]), dict(exc=type(e).__name__)))
